@@ -444,3 +444,9 @@ def run(ck, prog, ctx):
     check_exact_conversion(ck, "GUARD", prog, "similarity::usize_to_f32", "the set sizes / distances")
     from engines import check_ctors
     check_ctors(ck, "CTOR", prog, r"^src/similarity/defaults\.rs$", floor=3)
+    # the names accepted by Builtins::new select the measure of that name
+    ck.rule("NAMES", "a name-to-variant table maps every accepted name to the variant it names (full name, prefix, initials)")
+    from engines import check_name_table
+    bn = prog.body("similarity::Builtins::new")
+    if ck.anchor("NAMES", "Builtins::new", bn):
+        check_name_table(ck, "NAMES", "Builtins::new", bn, r"similarity::Builtins$", floor=8)
